@@ -90,18 +90,29 @@ class Scn:
                         expire_time=Nullable(en, ev), tag=tag, _alive=alive, _tb=self.v_real('r%d.tb' % i))
             rv.update(rowid=rowid, key=key, store_time=st_, access_time=at_, access_count=ac_, expire_null=en,
                       expire_time=ev, tag_null=tn, tag=tv, alive=alive)
-            if len(kinds) > 1:
+            if 'int' in kinds and 'file' in kinds:
                 isfile = self.v_bool('r%d.isfile' % i)
             else:
-                isfile = B(z3.BoolVal(kinds[0] == 'file'))
+                isfile = B(z3.BoolVal('file' in kinds and 'int' not in kinds))
             val = self.v_int('r%d.value' % i, -2 ** 40, 2 ** 40)
             size = self.v_int('r%d.size' % i, 0, 2 ** 40)
             rv.update(isfile=isfile, value=val, size=size)
             fz = sx._fold(isfile.z)
             fn_id = w.intern_text(fname(i))
-            spec['mode'] = Cell(INT, IfR(fz, 2, 1))
-            spec['filename'] = Cell(IfI(fz, TEXT, NULL), IfR(fz, fn_id, 0))
-            spec['value'] = Cell(IfI(fz, NULL, INT), IfR(fz, 0, val.z))
+            if 'none' in kinds:
+                # the Python value None: stored inline as a pickle (mode 4)
+                import pickle
+                isnone = self.v_bool('r%d.isnone' % i)
+                nz = sx._fold(isnone.z)
+                rv['isnone'] = isnone
+                none_id = sx.simp(w.bind(pickle.dumps(None, protocol=pickle.HIGHEST_PROTOCOL)).num)
+                spec['mode'] = Cell(INT, IfR(fz, 2, IfR(nz, 4, 1)))
+                spec['filename'] = Cell(IfI(fz, TEXT, NULL), IfR(fz, fn_id, 0))
+                spec['value'] = Cell(IfI(fz, NULL, IfI(nz, BLOB, INT)), IfR(fz, 0, IfR(nz, none_id, val.z)))
+            else:
+                spec['mode'] = Cell(INT, IfR(fz, 2, 1))
+                spec['filename'] = Cell(IfI(fz, TEXT, NULL), IfR(fz, fn_id, 0))
+                spec['value'] = Cell(IfI(fz, NULL, INT), IfR(fz, 0, val.z))
             spec['size'] = Cell(INT, IfR(fz, size.z, 0))
             # the file exists iff the row is alive and file-backed (Inv)
             al = sx._fold(alive.z) if isinstance(alive, B) else True
